@@ -316,3 +316,21 @@ Print Assumptions C13_dec2f64_unique.
 Theorem C13_dec2f32_correct : forall d, Num.f32_rounds_to d (Num.dec2f32 d) = true.
 Proof. exact Dec2FloatCorrect.dec2f32_correct. Qed.
 Print Assumptions C13_dec2f32_correct.
+
+(* ================================================================== (G) the finite test from the Go source *)
+(* conv/p2j checkFinite (gen/Gen_p2jfinite.v, regenerated from the Go text on every build; math.IsNaN / math.IsInf are read as tests on
+   the IEEE bit pattern) rejects exactly the doubles the model has no JSON image for: those that are not Num.f64_is_finite *)
+From DG Require Num Gen_p2jfinite GenFiniteProofs.
+Theorem C13_checkFinite_from_source :
+  forall b e, 0 <= b ->
+  Gen_p2jfinite.checkFinite b e = if Num.f64_is_finite b then (0, []) else (e, [(Gen_p2jfinite.Eff_wrapError, [6])]).
+Proof. exact GenFiniteProofs.checkFinite_is_finite. Qed.
+Print Assumptions C13_checkFinite_from_source.
+
+(* (G) the finite test of conv/t2j (the condition in front of EncodeFloat64 in doRecurse, case DOUBLE; gen/Gen_t2jfinite.v from the Go
+   text on every build) is the negation of Num.f64_is_finite: the doubles for which the model's jexp_finite fails *)
+From DG Require Num Gen_t2jfinite GenFiniteProofs.
+Theorem C13_t2j_double_finite_from_source :
+  forall b, 0 <= b -> Gen_t2jfinite.double_not_finite b = negb (Num.f64_is_finite b).
+Proof. exact GenFiniteProofs.double_not_finite_is_finite. Qed.
+Print Assumptions C13_t2j_double_finite_from_source.
